@@ -155,3 +155,67 @@ pub fn take_events() -> Vec<(u64, u8, u64)> {
 }
 
 pub use crate::storage::VerifHashMapResult as HashMapResultAlias;
+
+// ---------------------------------------------------------------------------------------------
+// Mass-matrix estimators driven directly with synthetic windows.
+
+pub use crate::transform::{
+    LowRankMassMatrixStrategy, VerifDiagAdaptStrategy as DiagAdaptStrategy,
+    VerifDrawGradCollector as DrawGradCollector, VerifMassMatrixAdaptStrategy as MassMatrixAdaptStrategy,
+};
+
+/// An adaptation strategy together with the transformation it updates and a collector,
+/// driven exactly as `GlobalStrategy` drives them (`init`, `update_estimators`, `switch`, `adapt`).
+pub struct EstimatorProbe<M: crate::Math, S: MassMatrixAdaptStrategy<M, Collector = DrawGradCollector<M>>> {
+    pub strategy: S,
+    pub matrix: S::Transformation,
+    collector: DrawGradCollector<M>,
+}
+
+impl<M: crate::Math, S: MassMatrixAdaptStrategy<M, Collector = DrawGradCollector<M>>> EstimatorProbe<M, S> {
+    pub fn new(math: &mut M, options: S::Options, matrix: S::Transformation) -> Self {
+        let strategy = S::new(math, options, 0, 0);
+        let collector = strategy.new_collector(math);
+        Self { strategy, matrix, collector }
+    }
+
+    /// `MassMatrixAdaptStrategy::init` at the given start point.
+    pub fn init(&mut self, math: &mut M, position: &[f64], gradient: &[f64]) -> Result<(), NutsError> {
+        let mut point = <TransformedPoint<M> as Point<M>>::new(math);
+        math.read_from_slice(&mut point.untransformed_position, position);
+        math.read_from_slice(&mut point.untransformed_gradient, gradient);
+        let mut options = NutsOptions::default();
+        let mut rng = <rand::rngs::SmallRng as rand::SeedableRng>::seed_from_u64(0);
+        self.strategy.init(math, &mut options, &mut self.matrix, &point, &mut rng)
+    }
+
+    /// One draw handed to `update_estimators` (the collector's `is_good` flag is given).
+    pub fn add(&mut self, math: &mut M, draw: &[f64], grad: &[f64], is_good: bool) {
+        math.read_from_slice(&mut self.collector.draw, draw);
+        math.read_from_slice(&mut self.collector.grad, grad);
+        self.collector.is_good = is_good;
+        self.strategy.update_estimators(math, &self.collector);
+    }
+
+    pub fn switch(&mut self, math: &mut M) {
+        self.strategy.switch(math);
+    }
+
+    pub fn adapt(&mut self, math: &mut M) -> bool {
+        self.strategy.adapt(math, &mut self.matrix)
+    }
+
+    pub fn counts(&self) -> (u64, u64) {
+        (self.strategy.current_count(), self.strategy.background_count())
+    }
+}
+
+/// A fresh diagonal transformation (`DiagMassMatrix::new`).
+pub fn new_diag_matrix<M: crate::Math>(math: &mut M) -> DiagMassMatrix<M> {
+    DiagMassMatrix::new(math, true)
+}
+
+/// A fresh low-rank transformation (`LowRankMassMatrix::new`).
+pub fn new_lowrank_matrix<M: crate::Math>(math: &mut M, settings: crate::LowRankSettings) -> LowRankMassMatrix<M> {
+    LowRankMassMatrix::new(math, settings)
+}
